@@ -1,6 +1,6 @@
 (** Tie 2: the facts regenerated from /repo's current sources (Generated.v) agree with what the
     model and the theorems assume. Re-checked by coqc whenever Generated.v changes. *)
-From MowCli Require Import Base Lexer Nfa Generated.
+From MowCli Require Import Base Lexer Parser Nfa Generated.
 
 Lemma tie_isLowercase c : g_isLowercase c = isLowercase c.
 Proof. reflexivity. Qed.
@@ -27,3 +27,23 @@ Lemma tie_package_state :
                     ("errVersionRequested", ".")]%string
   /\ g_package_var_writes = [].
 Proof. split; reflexivity. Qed.
+
+(** the error messages of the lexer and of the parser that the model uses are string literals of the
+    current sources (format strings for the parametrised ones; the bracket names are the lexer's token
+    type names) *)
+Definition has_lit (l : list String.string) (m : str) : bool := existsb (fun s => str_eqb (lit s) m) l.
+
+Lemma tie_lexer_messages :
+  forallb (has_lit g_strings_lexer)
+          [msg_dot2; msg_dot1; msg_optname_eof; msg_optname; msg_invalid; msg_longname; msg_eqlt; msg_unclosed;
+           msg_optvalue; msg_unexpected; s_options] = true.
+Proof. vm_compute. reflexivity. Qed.
+
+Lemma tie_parser_messages :
+  forallb (has_lit g_strings_parser)
+          [msg_eoi; msg_no_opts; msg_atom; Lexer.msg_unexpected;
+           msg_undecl_arg (lit "%s"); msg_undecl_opt (lit "%s"); msg_undecl_opt (lit "-%s")] = true
+  /\ has_lit g_strings_parser (lit "Was expecting %v") = true
+  /\ msg_expect_par = lit "Was expecting " ++ lit "ClosePar" /\ msg_expect_sq = lit "Was expecting " ++ lit "CloseSq"
+  /\ forallb (has_lit g_strings_lexer) [lit "ClosePar"; lit "CloseSq"] = true.
+Proof. vm_compute. repeat split; reflexivity. Qed.
